@@ -428,9 +428,26 @@ def weave(blk, real_ct):
                 pos_map[i] = ("inside", j2)
             pos_map[i2] = ("at", j2)
     by_j = {}
+    BOUND = (";", "{", "}")
+
+    def snap(j):
+        """nearest statement boundary in b (a position whose previous token ends a statement or
+        opens/closes a block); ties go backward"""
+        if j <= 0 or j >= len(b) or b[j - 1] in BOUND:
+            return j
+        back = j
+        while back > 0 and b[back - 1] not in BOUND:
+            back -= 1
+        fwd = j
+        while fwd < len(b) and b[fwd - 1] not in BOUND:
+            fwd += 1
+        return back if (j - back) <= (fwd - j) else fwd
+
     for i, atext in adds:
         how, j = pos_map.get(i, ("at", len(b)))
-        if how == "inside" and not STMT_ADD.match(atext):
+        if STMT_ADD.match(atext):
+            j = snap(j)
+        elif how == "inside":
             dropped += 1
             continue
         by_j.setdefault(j, []).append(atext)
